@@ -38,6 +38,7 @@ TStep ==
      \/ Ev.ev = "write" /\ Healthy /\ Write(Ev.m) /\ NoD
      \/ Ev.ev = "poll" /\ Healthy /\ Ev.m \notin polled /\ FirstPoll(Ev.m) /\ NoD
      \/ Ev.ev = "poll" /\ Ev.m \in polled /\ Same /\ NoD
+     \/ Ev.ev = "slow_read" /\ Same /\ NoD
      \/ Ev.ev = "poll_long" /\ PollBegin(Ev.m) /\ NoD
      \/ Ev.ev = "poll_end" /\ PollEnd(Ev.m) /\ NoD
      \/ Ev.ev = "started_cb" /\ StartedCb(Ev.m) /\ NoD
